@@ -32,6 +32,25 @@ def specRun (p : Pipe) (r : Run) (o : ObsRun) : Bool × String :=
       | none => (true, "")
 
 def handle (c obs : String) : String × Bool × String :=
+  if isSpecOnly c then
+    -- operators outside the model (sequential): a fault whose call position was reached must surface with the
+    -- injected root, and what was delivered must be a prefix of what the same case delivers without the fault
+    match parseObs obs, parseRunsOnly c with
+    | some [o], some [r] =>
+      match r.fault with
+      | none => (obs, true, "")
+      | some (_, .cancel) => (obs, true, "")
+      | some (pos, k) =>
+        if pos ≥ o.calls then (obs, true, "") else
+        let wantCls := match k with | .panicVal => "panicval" | _ => "user"
+        if o.ok then (obs, false, s!"spec-only: fault swallowed, terminal returned success (want err:{wantCls})")
+        else if o.cls != wantCls then (obs, false, s!"spec-only: wrong error class {o.cls} (want {wantCls})")
+        else match (if (words c).contains "sample" then none else o.ff) with   -- random sampling: no fixed delivery
+          | some f => if isPrefixStr o.delivered f then (obs, true, "")
+                      else (obs, false, s!"spec-only: delivered {o.delivered} is not a prefix of the fault-free {f}")
+          | none => (obs, true, "")
+    | _, _ => (obs, false, "unparsable observation")
+  else
   match parseCase c with
   | none => ("bad-case", false, "unparsable case")
   | some (p, rs) =>
